@@ -331,7 +331,7 @@ fn gen_listed(a: &Args, rng: &mut Rng) -> Vec<Case> {
         }
     }
     // random names over the pool, random affixes, short chains
-    let nrand = if a.thorough() { 30_000 } else { 1_000 };
+    let nrand = if a.thorough() { 8_000 } else { 1_000 };
     for i in 0..nrand {
         let len = if i % 8 == 0 { rng.range(100, 300) } else { rng.range(1, 24) } as usize;
         let mut name = String::new();
